@@ -469,6 +469,18 @@ class Program:
     def impl_methods(self, impl):
         return [self.fns[it['dp']] for it in impl['items'] if it['kind'] == 'AssocFn' and it['dp'] in self.fns]
 
+    def impl_method_or_default(self, impl, name):
+        """The impl's own method `name`, or — when the impl does not override it — the trait's provided body."""
+        for f in self.impl_methods(impl):
+            if f.name == name:
+                return f
+        if impl.get('trait'):
+            want = impl['trait']['path'] + '::' + name
+            for f in self.fns.values():
+                if f.path == want and f.kind == 'AssocFn' and not f.impl:
+                    return f
+        return None
+
 # ---------------------------------------------------------------------------------------------
 # reads / writes / def-use helpers
 
